@@ -192,7 +192,9 @@ def _fields_grid(tier, rng):
 def _compose(a):
     """build TLE text from field values, independently of beyond (standard fixed columns)"""
     desig = ["", "98067A", "58002B", "20001ABC", "57001A", "56999ZZZ"][a["desig"]]
-    year, day = [(1957, 277.5), (1999, 365.99999999), (2000, 1.0), (2000, 366.5), (2016, 366.25), (2017, 46.53283463), (2056, 366.0), (2024, 60.00000001)][a["epoch"]]
+    # (the entries after the eighth are epochs a few days from an inserted leap second: used by C07)
+    year, day = [(1957, 277.5), (1999, 365.99999999), (2000, 1.0), (2000, 366.5), (2016, 366.25), (2017, 46.53283463), (2056, 366.0), (2024, 60.00000001),
+                 (2008, 362.5), (2015, 184.25), (2012, 170.0), (2009, 3.75)][a["epoch"]]
 
     def assumed(x):
         if x == 0:
